@@ -72,6 +72,7 @@ impl rand::RngCore for ScriptedRng {
 
 thread_local! {
     static CACHE: RefCell<HashMap<String, Rc<ClusterState>>> = RefCell::new(HashMap::new());
+    static HCACHE: RefCell<HashMap<String, (Rc<ClusterState>, String)>> = RefCell::new(HashMap::new());
 }
 
 fn cluster(topo_s: &str, peers: &[PeerSpec], pre_s: &str, pre: &[Strat]) -> Rc<ClusterState> {
@@ -387,13 +388,18 @@ fn run_history(w: &[&str], ctx: &mut Ctx) -> String {
             _ => return "bad-case".into(),
         }
         let prev = state.clone();
-        let cs = CACHE.with(|c| {
+        // history states are cached together with the arms observed when they were built (the arms compare the new
+        // node objects with those of the very state the refresh started from)
+        let (cs, arms) = HCACHE.with(|c| {
             let mut c = c.borrow_mut();
-            if let Some(cs) = c.get(&key) {
-                return cs.clone();
+            if let Some(e) = c.get(&key) {
+                return e.clone();
             }
-            if c.len() >= 24 {
+            if c.len() >= 16 {
                 c.clear();
+            }
+            if let Some(p) = &prev {
+                mark_nodes(p);
             }
             let cs = Rc::new(match (mode, &prev) {
                 ("n", _) => build_cluster(&peers, &pre),
@@ -403,11 +409,13 @@ fn run_history(w: &[&str], ctx: &mut Ctx) -> String {
                 (_, Some(p)) => refresh_cluster_topology(p, &peers),
                 _ => unreachable!(),
             });
-            c.insert(key.clone(), cs.clone());
-            cs
+            let arms = reuse_arms(prev.as_deref(), &cs, &peers);
+            c.insert(key.clone(), (cs.clone(), arms.clone()));
+            (cs, arms)
         });
         let label = format!("after step {} ({})", i + 1, mode);
-        lines.push(check_state(&cs, Some(&label), topo_s, &peers, &pre_s, &pre, tail[0], &strat, dc, tok, ctx));
+        let obs = check_state(&cs, Some(&label), topo_s, &peers, &pre_s, &pre, tail[0], &strat, dc, tok, ctx);
+        lines.push(format!("{} arms={}", obs, arms));
         state = Some(cs);
         prev_peers = peers;
     }
@@ -798,6 +806,10 @@ fn mutate(rng: &mut Rng, peers: &mut Vec<PeerSpec>, max_racks: u32, next_id: &mu
             } else if peers[i].tokens.len() > 1 {
                 peers[i].tokens.pop();
             }
+        }
+        7 if rng.chance(1, 2) => {
+            // enabled-ness (flag `d` = disabled): decides between the reuse arms and the new-node arms
+            peers[i].flags = if peers[i].flags.is_empty() { "d".into() } else { String::new() };
         }
         7 | 8 => {
             // address change: the node moves to another position of the peer list
